@@ -2094,9 +2094,15 @@ impl<'a, 'b, W: Write> SerializeSeq for SeqSer<'a, 'b, W> {
                     self.ser.out.write_str(" ")?;
                     self.ser.pending_space_after_colon = false;
                 }
-                // If at line start, indent appropriately.
+                // If at line start, indent appropriately: deeper than the key this is the value
+                // of (with compact list indentation a block sequence starts at the key's
+                // column, where a `[]` on a line of its own cannot be read).
                 if self.ser.at_line_start {
-                    self.ser.write_indent(self.depth)?;
+                    let depth = match self.ser.current_map_depth {
+                        Some(key_depth) if self.depth <= key_depth => key_depth + 1,
+                        _ => self.depth,
+                    };
+                    self.ser.write_indent(depth)?;
                 }
                 self.ser.out.write_str("[]")?;
                 self.ser.newline()?;
